@@ -13,6 +13,7 @@ import (
 	"sync/atomic"
 	"time"
 
+	"github.com/hashicorp/go-hclog"
 	"github.com/hashicorp/raft"
 	wal "github.com/hashicorp/raft-wal"
 	"github.com/hashicorp/raft-wal/metrics"
@@ -273,17 +274,17 @@ func (r *walRun) open() string {
 	var w *wal.WAL
 	if r.mode == "r" {
 		if r.codecID != 1 {
-			w, err = wal.Open(r.dir, wal.WithSegmentSize(r.segSize), wal.WithMetricsCollector(r.t), wal.WithCodec(&idCodec{id: r.codecID}))
+			w, err = wal.Open(r.dir, wal.WithSegmentSize(r.segSize), wal.WithMetricsCollector(r.t), wal.WithLogger(hclog.NewNullLogger()), wal.WithCodec(&idCodec{id: r.codecID}))
 		} else {
-			w, err = wal.Open(r.dir, wal.WithSegmentSize(r.segSize), wal.WithMetricsCollector(r.t))
+			w, err = wal.Open(r.dir, wal.WithSegmentSize(r.segSize), wal.WithMetricsCollector(r.t), wal.WithLogger(hclog.NewNullLogger()))
 		}
 	} else {
 		sf := segment.NewFiler("d", r.cfs)
 		ms := &cmeta{fs: r.cfs}
 		if r.codecID != 1 {
-			w, err = wal.Open("d", wal.WithSegmentFiler(sf), wal.WithMetaStore(ms), wal.WithSegmentSize(r.segSize), wal.WithMetricsCollector(r.t), wal.WithCodec(&idCodec{id: r.codecID}))
+			w, err = wal.Open("d", wal.WithSegmentFiler(sf), wal.WithMetaStore(ms), wal.WithSegmentSize(r.segSize), wal.WithMetricsCollector(r.t), wal.WithLogger(hclog.NewNullLogger()), wal.WithCodec(&idCodec{id: r.codecID}))
 		} else {
-			w, err = wal.Open("d", wal.WithSegmentFiler(sf), wal.WithMetaStore(ms), wal.WithSegmentSize(r.segSize), wal.WithMetricsCollector(r.t))
+			w, err = wal.Open("d", wal.WithSegmentFiler(sf), wal.WithMetaStore(ms), wal.WithSegmentSize(r.segSize), wal.WithMetricsCollector(r.t), wal.WithLogger(hclog.NewNullLogger()))
 		}
 	}
 	if err != nil {
